@@ -360,8 +360,8 @@ pub fn property() -> Property {
         assumptions: &["insertions are only attempted between live nodes (try_add_edge documents a panic otherwise); histories stop when the inner graph's index space is exhausted"],
         both_profiles: false,
         subs: vec![
-            sub("acyclic/history", 80_000, 2_000_000, strategy, run),
-            sub("acyclic/try_from", 60_000, 1_000_000, t_strategy, t_run),
+            sub("acyclic/history", 600_000, 4_000_000, strategy, run),
+            sub("acyclic/try_from", 1_500_000, 30_000_000, t_strategy, t_run),
         ],
     }
 }
